@@ -505,16 +505,25 @@ def curve_fit(f, xdata, ydata, p0=None, sigma=None, absolute_sigma=False, check_
     return SymArray(popt, "f8"), None
 
 
-class _Interpolate:
+class _Namespace(type):
+    """A scipy sub-module as far as the analysed code can tell: names that are not modelled end in an engine gap."""
+
+    def __getattr__(cls, name):
+        if name.startswith("__"):
+            raise AttributeError(name)
+        raise Unsupported(f"scipy {cls.__name__.strip('_').lower()}.{name} is not modelled")
+
+
+class _Interpolate(metaclass=_Namespace):
     interp1d = Interp1d
 
 
-class _Integrate:
+class _Integrate(metaclass=_Namespace):
     cumulative_trapezoid = staticmethod(cumulative_trapezoid)
     quad = staticmethod(quad)
 
 
-class _Optimize:
+class _Optimize(metaclass=_Namespace):
     minimize = staticmethod(minimize)
     brentq = staticmethod(brentq)
     curve_fit = staticmethod(curve_fit)
@@ -564,10 +573,28 @@ class SP:
     sparse = SPARSE
 
 
+def _not_modelled(name):
+    def f(*a, **k):
+        raise Unsupported(f"scipy {name} is not modelled")
+    f.__name__ = name
+    f.__sx_only_if_scipy__ = True      # the loader installs it only over a name that really came from scipy
+    return f
+
+
+# names a changed module may import from scipy next to the modelled ones: calling them on symbolic values must end in an
+# engine gap (exit 3 / concrete replay family), never in whatever the real routine makes of symbolic operands
+_UNMODELLED = ("fixed_quad", "quadrature", "romberg", "simpson", "simps", "trapezoid", "trapz", "cumulative_simpson", "quad_vec", "dblquad", "solve_ivp", "odeint",
+               "newton", "bisect", "brenth", "ridder", "toms748", "fsolve", "root", "root_scalar", "least_squares", "minimize_scalar", "fminbound", "leastsq",
+               "UnivariateSpline", "InterpolatedUnivariateSpline", "CubicSpline", "PchipInterpolator", "Akima1DInterpolator", "make_interp_spline", "splrep", "splev",
+               "RegularGridInterpolator", "griddata", "solve_banded", "solve", "spsolve", "lstsq")
+
+
 def rebind():
-    return dict(interp1d=Interp1d, cumulative_trapezoid=cumulative_trapezoid, sparse=SPARSE, minimize=minimize,
-                brentq=brentq, quad=quad, curve_fit=curve_fit, interpolate=_Interpolate, integrate=_Integrate,
-                sp=SP)
+    d = {n: _not_modelled(n) for n in _UNMODELLED}
+    d.update(interp1d=Interp1d, cumulative_trapezoid=cumulative_trapezoid, sparse=SPARSE, minimize=minimize,
+             brentq=brentq, quad=quad, curve_fit=curve_fit, interpolate=_Interpolate, integrate=_Integrate,
+             sp=SP)
+    return d
 
 
 # --------------------------------------------------------------------------- self test against the real library
